@@ -124,6 +124,53 @@ pub fn pin_fens() -> Vec<String> {
     v
 }
 
+/// (e) castling next to a line piece's business: the enemy king on the file of the castling rook's home square or of its
+///     destination square, one enemy piece in between (so that the rook pins it before castling or after it, not both), every
+///     kind of blocker; the caller plays every move of these positions one after the other ON THE SAME BOARD (castle, take
+///     back, next move): whatever the board remembers about pins while the rook stood elsewhere must not leak.
+pub fn castle_pin_fens() -> Vec<String> {
+    let mut v = vec![];
+    for white in [true, false] {
+        // (rook home, rook destination after castling, right letter)
+        let sides: [(usize, usize, &str); 2] = if white { [(0, 3, "Q"), (7, 5, "K")] } else { [(56, 59, "q"), (63, 61, "k")] };
+        for (home, dest, right) in sides {
+            for file_sq in [home, dest] {
+                let file = file_sq % 8;
+                for kdist in 4..8usize {
+                    for bdist in 1..kdist {
+                        for blocker in ['n', 'b', 'r', 'q', 'p'] {
+                            // ranks counted from the castling side's back rank
+                            let rank = |d: usize| if white { d } else { 7 - d };
+                            if blocker == 'p' && (rank(bdist) == 0 || rank(bdist) == 7) {
+                                continue;
+                            }
+                            let up = |c: char| if white { c } else { c.to_ascii_uppercase() };
+                            let mut g = [None::<char>; 64];
+                            g[if white { 4 } else { 60 }] = Some(if white { 'K' } else { 'k' });
+                            g[home] = Some(if white { 'R' } else { 'r' });
+                            g[rank(kdist) * 8 + file] = Some(up('k'));
+                            g[rank(bdist) * 8 + file] = Some(up(blocker));
+                            // a spare pawn of the castling side: quiet sibling moves that touch no line of either king
+                            let spare = if white { if file == 7 { 8 } else { 15 } } else if file == 7 { 48 } else { 55 };
+                            if g[spare].is_none() {
+                                g[spare] = Some(if white { 'P' } else { 'p' });
+                            }
+                            // a spare enemy knight on a square that comes AFTER the enemy king in square order (the legality probes
+                            // run in that order: what the last probes leave behind is what the next position inherits)
+                            let spare_n = if white { if file == 7 { 56 } else { 63 } } else if right == "k" { 48 } else { 55 };
+                            if g[spare_n].is_none() {
+                                g[spare_n] = Some(up('n'));
+                            }
+                            v.push(format!("{} {} {} - 0 1", grid_placement(&g), if white { "w" } else { "b" }, right));
+                        }
+                    }
+                }
+            }
+        }
+    }
+    v
+}
+
 /// (c) every piece kind of either colour on every square it can stand on, with bare kings, its owner to move: the caller
 ///     plays every move of these positions (the piece leaves the square, is captured on it when next to the enemy king,
 ///     kings step around it): every (kind, square) word of the incremental key is added or removed at least once.
@@ -298,6 +345,9 @@ impl<W: Write> Emit<W> {
             fen
         )
         .unwrap();
+        // the evaluation must be a function of the position: the live board (with whatever it remembers of the path that
+        // led here) and a fresh load of the same position must agree
+        writeln!(self.out, "Y {} {} block", SimpleEvaluator.evaluate(b), SimpleEvaluator.evaluate(&mut reload)).unwrap();
         let _ = &mut reload;
         if self.perturb_every > 0 && self.positions % self.perturb_every == 0 {
             self.perturb(b);
@@ -313,8 +363,11 @@ impl<W: Write> Emit<W> {
         let k1 = bv::key_u64(b.zkey);
         let (mut total, mut changed, mut acc) = (0u64, 0u64, 0u64);
         let mut fails: Vec<String> = vec![];
+        let mut deltas: Vec<(u64, String)> = vec![];
+        let mut purity: Vec<(i16, i16, String)> = vec![];
         let mut note = |k: u64, what: String, total: &mut u64, changed: &mut u64, acc: &mut u64| {
             *total += 1;
+            deltas.push((k ^ k0, what.clone()));
             *acc ^= k.rotate_left((*total % 64) as u32);
             if k != k0 && k != k1 {
                 *changed += 1;
@@ -338,6 +391,16 @@ impl<W: Write> Emit<W> {
                     b2.add_piece(square, k);
                 }
                 note(bv::scratch_key(&b2), format!("sq{sq}:{code}"), &mut total, &mut changed, &mut acc);
+                // one kind substituted for another of the same colour on a copy of the live board (the occupancy does not change):
+                // the copy's evaluation must be that of a fresh load of the same position
+                if let (Some(c0), Some(c1)) = (cur, newc) {
+                    let pawn_back = matches!(c1, Kind::Pawn(_)) && (sq / 8 == 0 || sq / 8 == 7);
+                    if c0.get_color() == c1.get_color() && !matches!(c0, Kind::King(_)) && !matches!(c1, Kind::King(_)) && !pawn_back && purity.len() < 8 {
+                        let live = SimpleEvaluator.evaluate(&mut b2);
+                        let fresh = SimpleEvaluator.evaluate(&mut Board::from_fen(&render_fen(&b2)));
+                        purity.push((live, fresh, format!("sq{sq}:{code}")));
+                    }
+                }
             }
         }
         {
@@ -361,7 +424,17 @@ impl<W: Write> Emit<W> {
             bv::set_en_passant_file(&mut b2, newf);
             note(bv::scratch_key(&b2), format!("ep{f}"), &mut total, &mut changed, &mut acc);
         }
+        // two different one-component changes must not move the key by the same amount (else changing both gives the key back)
+        deltas.sort();
+        for w in deltas.windows(2) {
+            if w[0].0 == w[1].0 && w[0].0 != 0 && fails.len() < 6 {
+                fails.push(format!("alias:{}={}", w[0].1, w[1].1));
+            }
+        }
         writeln!(self.out, "P {total} {changed} {acc:x} {}", fails.join(",")).unwrap();
+        for (live, fresh, what) in purity {
+            writeln!(self.out, "Y {live} {fresh} {what}").unwrap();
+        }
     }
 }
 
@@ -390,6 +463,21 @@ fn dfs<W: Write>(e: &mut Emit<W>, b: &mut Board, depth: u32) {
         writeln!(e.out, "M {}", move_fields(&m)).unwrap();
         b.make_move(m);
         dfs(e, b, depth - 1);
+        b.unmake_move();
+        writeln!(e.out, "U").unwrap();
+        writeln!(e.out, "D {}", bv::dump(b)).unwrap();
+    }
+}
+
+/// one ply of descent, the moves tried in REVERSE generation order on the same board (so that the moves generated first
+/// are tried after the ones generated last have been made and taken back)
+fn dfs_reversed<W: Write>(e: &mut Emit<W>, b: &mut Board) {
+    let mut moves = b.get_legal_moves();
+    moves.reverse();
+    for m in moves {
+        writeln!(e.out, "M {}", move_fields(&m)).unwrap();
+        b.make_move(m);
+        e.block(b);
         b.unmake_move();
         writeln!(e.out, "U").unwrap();
         writeln!(e.out, "D {}", bv::dump(b)).unwrap();
@@ -434,6 +522,18 @@ pub fn walk(args: &[String]) {
         }
     }
 
+    // one extra root given on the command line (replays, experiments): descent in both move orders
+    if let Some(fen) = arg_str(args, "dfs-fen") {
+        if shard == 0 {
+            let fen = fen.replace('_', " ");
+            writeln!(e.out, "N {fen}").unwrap();
+            e.seen.clear();
+            let mut b = Board::from_fen(&fen);
+            dfs(&mut e, &mut b, dfs_depth.max(1));
+            dfs_reversed(&mut e, &mut b);
+        }
+    }
+
     // exhaustive descents
     for (i, fen) in SEEDS.iter().take(dfs_seeds).enumerate() {
         if (i as u64) % of != shard {
@@ -467,7 +567,7 @@ pub fn walk(args: &[String]) {
 
     if arg::<u64>(args, "matrix", 1) == 1 {
         let mut idx = 0u64;
-        for fen in piece_square_fens() {
+        for fen in piece_square_fens().into_iter().chain(castle_pin_fens()) {
             idx += 1;
             if idx % of != shard {
                 continue;
@@ -479,6 +579,9 @@ pub fn walk(args: &[String]) {
             writeln!(e.out, "N {fen}").unwrap();
             e.seen.clear();
             dfs(&mut e, &mut b, 1);
+            if fen.contains(" w K ") || fen.contains(" w Q ") || fen.contains(" b k ") || fen.contains(" b q ") {
+                dfs_reversed(&mut e, &mut b);
+            }
         }
     }
 
@@ -564,6 +667,41 @@ pub fn fen_stream(args: &[String]) {
     let mut rng = Rng(seed.wrapping_mul(0x1000_0000_01B3).wrapping_add(shard).wrapping_add(77));
     let out = std::io::stdout();
     let mut e = Emit { out: std::io::BufWriter::with_capacity(1 << 20, out.lock()), positions: 0, perturb_every: arg(args, "perturb-every", 16), seen: vec![] };
+    // a fixed family first: rows that are full of one kind of piece on ranks where play rarely puts them, digit runs
+    // split in unusual ways (`44`, `1111`-style rows are valid FEN), full boards without a digit
+    if shard == 0 {
+        let mut special: Vec<String> = vec![];
+        for r in 1..7usize {
+            for (row, kings) in [("PPPPPPPP", true), ("pppppppp", true), ("NNNNNNNN", true), ("qqqqqqqq", true), ("RBRBRBRB", true), ("p1p1p1p1", true), ("1P1P1P1P", true)] {
+                let _ = kings;
+                let mut rows: Vec<String> = vec!["8".to_string(); 8];
+                rows[0] = "4k3".to_string();
+                rows[7] = "4K3".to_string();
+                rows[7 - r] = row.to_string(); // rank r+1
+                let fen = format!("{} w - - 0 1", rows.join("/"));
+                let b = Board::from_fen(&fen);
+                if b.is_in_check(b.current_turn.opposite()) {
+                    special.push(format!("{} b - - 0 1", rows.join("/")));
+                } else {
+                    special.push(fen);
+                }
+            }
+        }
+        special.push("rnbqkbnr/8/pppppppp/8/8/PPPPPPPP/8/RNBQKBNR w KQkq - 0 9".to_string());
+        special.push("rnbqkbnr/8/8/pppppppp/PPPPPPPP/8/8/RNBQKBNR w KQkq - 0 9".to_string());
+        special.push("4k3/8/44/8/8/3P4/8/4K3 w - - 0 1".to_string());
+        special.push("4k3/8/8/11111111/8/2P5/8/4K3 w - - 0 1".to_string());
+        special.push("4k3/8/8/1p6/8/8/8/4K3 w - - 0 1".to_string());
+        for text in special {
+            let mut loaded = Board::from_fen(&text);
+            if loaded.is_in_check(loaded.current_turn.opposite()) {
+                continue;
+            }
+            writeln!(e.out, "N {text}").unwrap();
+            e.seen.clear();
+            e.block(&mut loaded);
+        }
+    }
     let mut n = 0;
     while n < count {
         let fen0 = SEEDS[(rng.below(SEEDS.len() as u64)) as usize];
@@ -591,7 +729,8 @@ pub fn fen_stream(args: &[String]) {
             cs.swap(i, j);
         }
         let cs: String = cs.into_iter().collect();
-        let half = rng.below(151);
+        // mostly realistic clocks; now and then one far beyond the fifty-move horizon (a u8 would not hold it)
+        let half = if rng.below(8) == 0 { 150 + rng.below(500) } else { rng.below(151) };
         let full = 1 + rng.below(6000);
         let variant = rng.below(4);
         let text = match variant {
